@@ -396,3 +396,41 @@ Definition mp_eval_rn (fuel : nat) (rho : var -> rnum) (p : mpoly) : option rnum
   fold_right (fun t acc =>
       obind acc (fun a => obind (mono_eval_rn fuel rho (fst t)) (fun mv => rn_add fuel (rn_mul_q mv (snd t, 1)) a)))
     (Some (RQ (0, 1))) p.
+
+(* ---------------------------------------------------------------- all real roots of a polynomial, increasing *)
+(* isolate the roots of square-free p inside (lo, hi] given that p(lo) <> 0: bisection with Sturm counts *)
+Fixpoint rn_isolate (fuel : nat) (p : poly) (lo hi : rat) : option (list rnum) :=
+  match fuel with
+  | O => None
+  | S f =>
+    let c := count_roots_oc p (xr lo) (xr hi) in
+    match c with
+    | O => Some []
+    | S O =>
+      if psgn_q p hi =? 0 then Some [RQ hi] else Some [RA p lo hi]
+    | _ =>
+      let m := q_mid lo hi in
+      if psgn_q p m =? 0 then
+        (* m is a root: isolate left of it with a slightly smaller right end, i.e. count on (lo, m) by removing m *)
+        match pdiv_exact p (ppp [- fst m; snd m]) with
+        | Some p' =>
+          match rn_isolate f p' lo hi with
+          | Some rs =>
+            (* insert the rational root m in order *)
+            Some ((filter (fun r => rn_cmp_q r m <? 0) rs) ++ [RQ m] ++ (filter (fun r => 0 <? rn_cmp_q r m) rs))
+          | None => None
+          end
+        | None => None
+        end
+      else
+        match rn_isolate f p lo m, rn_isolate f p m hi with
+        | Some l, Some r => Some (l ++ r)
+        | _, _ => None
+        end
+    end
+  end.
+Definition rn_roots (fuel : nat) (p : poly) : option (list rnum) :=
+  let p := psqfree p in
+  if Nat.ltb (pdeg p) 1 then Some [] else
+  let b := root_bound p in
+  rn_isolate fuel p (- b, 1) (b, 1).
